@@ -31,6 +31,19 @@ class UserBase(BaseException):
         self.code = code
 
 
+def make_user_tna(code):
+    """a TransitionNotAllowed raised by user code inside a callback (e.g. by driving another, strict machine):
+    a failure of the callback like any other, also when this machine tolerates unknown events"""
+    from statemachine.exceptions import TransitionNotAllowed
+
+    class UserTNA(TransitionNotAllowed):
+        pass
+    e = UserTNA.__new__(UserTNA)
+    Exception.__init__(e, f"user code {code}")
+    e.code, e.event, e.state = code, None, None
+    return e
+
+
 class UserStop(StopIteration):
     """a user exception that happens to be a StopIteration (e.g. next() on an exhausted iterator in a
     callback): it must propagate like any other exception"""
@@ -83,6 +96,8 @@ def evidx(name):
 
 def cbname(nm):
     kind, k = nm
+    if kind == 0 and 300 <= k < 320:
+        return f"s{k - 300}"          # a user name that is also the id of a state (provided by model / listeners)
     return {
         0: f"u{k}", 1: "before_transition", 2: "on_transition", 3: "after_transition",
         4: f"before_{evname(k)}", 5: f"on_{evname(k)}", 6: f"after_{evname(k)}",
@@ -99,6 +114,8 @@ def from_json(v):
         return [from_json(x) for x in v["l"]]
     if "t" in v:
         return tuple(from_json(x) for x in v["t"])
+    if "x" in v:
+        return UserErr(v["x"])               # an exception object handed back as an ordinary value
     if v.get("eq"):
         return AnyEq(v["o"], True)
     return Opq(v["o"], v["b"])
@@ -119,6 +136,8 @@ def to_json(v):
         return {"l": [to_json(x) for x in v]}
     if isinstance(v, tuple):
         return {"t": [to_json(x) for x in v]}
+    if isinstance(v, UserErr):
+        return {"x": v.code}
     if isinstance(v, AnyEq):
         return {"o": v.ident, "b": True, "eq": 1}
     if isinstance(v, Opq):
@@ -138,7 +157,7 @@ def sidx(state):
 
 def exn_json(e):
     from statemachine.exceptions import InvalidDefinition, InvalidStateValue, TransitionNotAllowed
-    if isinstance(e, (UserErr, UserStop, UserBase)):
+    if isinstance(e, (UserErr, UserStop, UserBase)) or hasattr(e, "code") and type(e).__name__ == "UserTNA":
         return ["u", e.code]
     if isinstance(e, TransitionNotAllowed):
         return ["na", evidx(e.event), sidx(e.state)]
@@ -238,8 +257,20 @@ def _enter(p, kind, k, isg, kw):
     return R, script, m
 
 
+def _muted(R, m):
+    tags = getattr(R, "tags", None)
+    return bool(tags) and tags.get(id(getattr(m, "model", None)), 0) in getattr(R, "mute_tags", ())
+
+
+class _NoLog(list):
+    def append(self, _x):
+        pass
+
+
 def _cb(p, kind, k, isg, kw):
     R, script, m = _enter(p, kind, k, isg, kw)
+    if _muted(R, m):
+        R = type("Quiet", (), {"log": _NoLog(), "sc": R.sc})()      # an unrelated machine: nothing of it is logged
     for act in script["a"]:
         if act[0] == "send":
             try:
@@ -256,14 +287,39 @@ def _cb(p, kind, k, isg, kw):
         else:
             if RUN.sc.get("base_exc") and act[1] % 3 == 0:
                 raise UserBase(act[1])
+            if RUN.sc.get("user_tna") and act[1] % 4 == 1:
+                raise make_user_tna(act[1])
             if RUN.sc.get("stop_iter") and not RUN.sc.get("async") and act[1] % 2:
                 raise UserStop(act[1])
             raise UserErr(act[1])
     return from_json(script["r"])
 
 
+class _Aw:
+    """an awaitable that is not a coroutine object"""
+
+    def __init__(self, coro):
+        self.coro = coro
+
+    def __await__(self):
+        return self.coro.__await__()
+
+
+def _same_loop(R):
+    """driven from synchronous code, the coroutine callbacks of one thread always run on one and the same
+    event loop (so that loop-bound objects a callback keeps - tasks, futures - stay usable in later events)"""
+    import threading
+    if R.sc.get("driver", "plain") == "loop":
+        return True
+    key, lp = threading.get_ident(), id(asyncio.get_running_loop())
+    loops = R.__dict__.setdefault("loops", {})
+    return loops.setdefault(key, lp) == lp
+
+
 async def _acb(p, kind, k, isg, kw):
     R, script, m = _enter(p, kind, k, isg, kw)
+    if not _same_loop(R) and R.log and R.log[-1][0] == "c":
+        R.log[-1][8] = 902                                        # the event loop changed under the callbacks
     mark = (id(kw.get("event_data")), R.group(kind, k))
     if mark[1] is not None:
         if any(x != mark for x in R.running):
@@ -277,6 +333,8 @@ async def _acb(p, kind, k, isg, kw):
 
 
 async def _acb_body(R, script, m):
+    if _muted(R, m):
+        R = type("Quiet", (), {"log": _NoLog(), "sc": R.sc})()
     for act in script["a"]:
         if act[0] == "send":
             try:
@@ -292,6 +350,8 @@ async def _acb_body(R, script, m):
         else:
             if RUN.sc.get("base_exc") and act[1] % 3 == 0:
                 raise UserBase(act[1])
+            if RUN.sc.get("user_tna") and act[1] % 4 == 1:
+                raise make_user_tna(act[1])
             raise UserErr(act[1])
     return from_json(script["r"])
 
@@ -324,7 +384,7 @@ def render_source(sc):
     gn = guard_names(sc)
     acoros = {tuple(x) for x in sc.get("async", [])}
     out = ["from statemachine import State, StateMachine",
-           "from harness.eng import _cb, _acb", ""]
+           "from harness.eng import _cb, _acb, _Aw", ""]
 
     inst = []
     wrapped_ = {tuple(x) for x in sc.get("wrapped_coros", [])}
@@ -341,8 +401,12 @@ def render_source(sc):
                     ls.append(f"{ind}{cbname(nm)} = None      # a plain attribute: its value is assigned after attachment")
                 continue
             if (p, kind, k) in acoros and (p, kind, k) in wrapped_:
-                # a plain function that returns an awaitable (e.g. an async function behind an ordinary wrapper)
-                ls.append(f"{ind}def {cbname(nm)}(self, **kw): return _acb({p}, {kind}, {k}, {isg}, kw)")
+                # a plain function that returns an awaitable: the coroutine itself (e.g. an async function behind
+                # an ordinary wrapper), or an object that is awaitable without being a coroutine
+                if (p + kind + k) % 2:
+                    ls.append(f"{ind}def {cbname(nm)}(self, **kw): return _Aw(_acb({p}, {kind}, {k}, {isg}, kw))")
+                else:
+                    ls.append(f"{ind}def {cbname(nm)}(self, **kw): return _acb({p}, {kind}, {k}, {isg}, kw)")
             elif (p, kind, k) in acoros:
                 ls.append(f"{ind}async def {cbname(nm)}(self, **kw): return await _acb({p}, {kind}, {k}, {isg}, kw)")
             else:
@@ -374,6 +438,8 @@ def render_source(sc):
                 idx = max(j for j, n_ in enumerate(st[g_]) if list(n_) == list(nm_))
                 del st[g_][idx]
         args = []
+        if i in (sc.get("dup_names") or []):
+            args.append("name='Same name'")          # several states share one display name
         if sc.get("values") and sc["values"][i] is not None:
             args.append(f"value={from_json(sc['values'][i])!r}")
         if i == sc["initial"]:
@@ -395,10 +461,18 @@ def render_source(sc):
         body.append("    states = States({" + ", ".join(f"'s{i}': State({state_args(i)})" for i in range(sc["n"])) + "})")
     else:   # enum: names are the state ids, values 1.. are the state values
         imports.add("States")
-        pre.append("from enum import Enum")
-        pre.append("class SE(Enum):")
-        for i in range(sc["n"]):
-            pre.append(f"    s{i} = {i + 1}")
+        if sc.get("enum_kind") == "int0":
+            # an IntEnum whose first member is 0 (falsy), with an alias of that member
+            pre.append("from enum import IntEnum")
+            pre.append("class SE(IntEnum):")
+            for i in range(sc["n"]):
+                pre.append(f"    s{i} = {i}")
+            pre.append("    zz_alias = 0")
+        else:
+            pre.append("from enum import Enum")
+            pre.append("class SE(Enum):")
+            for i in range(sc["n"]):
+                pre.append(f"    s{i} = {i + 1}")
         fin = "[" + ", ".join(f"SE.s{i}" for i in sc["finals"]) + "]"
         body.append(f"    states = States.from_enum(SE, initial=SE.s{sc['initial']}, final={fin})")
     used_events = sorted({e for t in sc["trans"] for e in t["ev"]})
@@ -430,9 +504,12 @@ def render_source(sc):
                 args.append(f"{key}={names(t[key])}")
         return args
 
-    decor = sc.get("decor") if style == "assign" else None      # callbacks / an event given by decorators
+    decor = sc.get("decor") if style in ("assign", "event_ctor") else None      # callbacks / an event given by decorators
     decor_cbs = (decor or {}).get("cbs", [])
-    decor_ev = (decor or {}).get("event")
+    decor_ev = (decor or {}).get("event") if style == "assign" else None
+    decor_evobj = (decor or {}).get("evobj") if style == "event_ctor" else None     # [event, group, name]: @ev.<group>
+    if style == "event_ctor":
+        decor_cbs = []
 
     def strip_decor(j, t):
         if not decor:
@@ -448,6 +525,14 @@ def render_source(sc):
         if decor_ev and t["ev"] == [decor_ev[0]]:
             idx = max(i for i, n_ in enumerate(t["on"]) if list(n_) == list(decor_ev[1]))
             del t["on"][idx]
+        if decor_evobj and t["ev"] == [decor_evobj[0]]:
+            e_, g, nm = decor_evobj
+            if g in ("cond", "unless"):
+                idx = max(i for i, (n_, b_) in enumerate(t["cond"]) if list(n_) == list(nm))
+                del t["cond"][idx]
+            else:
+                idx = max(i for i, n_ in enumerate(t[g]) if list(n_) == list(nm))
+                del t[g][idx]
         return t
 
     emitted = []
@@ -533,6 +618,11 @@ def render_source(sc):
         for e in used_events:
             tl = " | ".join(f"tr{j}" for j, t in enumerate(trs) if e in t["ev"])
             body.append(f"    {evname(e)} = Event({tl}, name={evname(e)!r})")
+            if decor_evobj and decor_evobj[0] == e:
+                # a callback / guard attached to every transition of the event through the Event object
+                _e, g, nm = decor_evobj
+                body.append(f"    @{evname(e)}.{'validators' if g == 'val' else g}")
+                body.append(f"    def {cbname(list(nm))}(self, **kw): return _cb(0, {nm[0]}, {nm[1]}, {tuple(nm) in gn}, kw)")
         body.append("    del " + ", ".join(f"tr{j}" for j in range(len(trs))))
     emit_decorated()          # (styles other than "assign": state decorators only)
     if sc.get("any_render"):
@@ -559,6 +649,7 @@ def render_source(sc):
         out.append("class M(StateMachine):")
         out += body
     decor_defined = ({tuple(nm) for _j, _g, nm in decor_cbs} | ({tuple(decor_ev[1])} if decor_ev else set())
+                     | ({tuple(decor_evobj[2])} if decor_evobj else set())
                      | {tuple(nm) for _i, _g, nm in state_decor} | callables_)
     out += methods(0, [nm for nm in sc["provs"][0] if tuple(nm) not in decor_defined])
     if inst:
@@ -581,6 +672,11 @@ def render_source(sc):
         out.append("    bind_events_as_methods = True")
         out.append("    def __init__(self): self.state = None")
         out.append("    def boot(self): MachineMixin.__init__(self)")
+    elif sc.get("recording_model"):
+        out.append("class Mdl:")
+        out.append("    def __init__(self): self._state, self.state_writes = None, 0")
+        out.append("    state = property(lambda self: self._state, lambda self, v: (setattr(self, '_state', v), "
+                   "setattr(self, 'state_writes', self.state_writes + 1)) and None)      # counts the writes")
     else:
         out.append("class Mdl:")
         out.append("    def __init__(self): self.state = None")
@@ -608,6 +704,45 @@ def render_source(sc):
                 else:
                     out.append(f"    o.{cbname(nm)} = lambda **kw: _cb({p}, {kind}, {k}, {isg}, kw)")
             out.append("    return o")
+            continue
+        lstyle = (sc.get("lstyles") or {}).get(str(p)) if not sc.get("eqgroups") else None
+        if lstyle == "classobj":
+            # the listener is a class object: its callbacks are class methods, half of them inherited
+            out.append(f"class L{p}Base:")
+            out.append("    pass")
+            half = [nm for i_, nm in enumerate(sc["provs"][p]) if i_ % 2 == 0]
+            for nm in sc["provs"][p]:
+                kind, k = nm
+                isg = tuple(nm) in gn
+                tgt = out
+                if kind == 0 and k >= 500:
+                    tgt.append(f"    {cbname(nm)} = None")
+                    continue
+                if nm not in half:
+                    continue
+                tgt.append("    @classmethod")
+                tgt.append(f"    def {cbname(nm)}(cls, **kw): return _cb({p}, {kind}, {k}, {isg}, kw)")
+            out.append(f"class L{p}_(L{p}Base):")
+            out.append("    pass")
+            for nm in sc["provs"][p]:
+                kind, k = nm
+                isg = tuple(nm) in gn
+                if (kind == 0 and k >= 500) or nm in half:
+                    continue
+                out.append("    @staticmethod")
+                out.append(f"    def {cbname(nm)}(**kw): return _cb({p}, {kind}, {k}, {isg}, kw)")
+            out.append(f"def L{p}(): return L{p}_         # the class itself is attached")
+            continue
+        if lstyle == "proxy":
+            # the listener shows the callbacks of a hidden object only through __dir__ and __getattr__
+            out.append(f"class L{p}Impl:")
+            out.append("    pass")
+            out += methods(p, sc["provs"][p])
+            out.append(f"class L{p}:")
+            out.append(f"    def __init__(self): object.__setattr__(self, '_t', L{p}Impl())")
+            out.append("    def __dir__(self): return dir(self._t)")
+            out.append("    def __getattr__(self, name): return getattr(self._t, name)")
+            out.append("    def __setattr__(self, name, value): setattr(self._t, name, value)")
             continue
         out.append(f"class L{p}:")
         grp = (sc.get("eqgroups") or {}).get(str(p))
@@ -686,6 +821,20 @@ def call_style(sm, style, name, tag, ns):
         if hasattr(other, name):
             return getattr(other, name)(tag=tag)
         return sm.send(name, tag=tag)
+    if style == "foreign":                    # a trigger bound to ANOTHER instance: for this one it is just the name
+        with warnings.catch_warnings():
+            warnings.simplefilter("ignore")
+            mdl = ns["Mdl"]()
+            RUN.tags[id(mdl)] = 99
+            try:
+                other = ns["construct"](mdl, [type(x)() for x in ns["LISTENERS"]])
+            except Exception:  # noqa: BLE001 - the other instance's own failures are not this machine's business
+                other = None
+        trig = getattr(other, name, None)
+        if trig is None:
+            return sm.send(name, tag=tag)
+        r = sm.send(trig, tag=tag)
+        return r
     if style == "mixin":                      # the trigger MachineMixin bound onto the model
         if hasattr(sm.model, name):
             return getattr(sm.model, name)(tag=tag)
@@ -866,6 +1015,8 @@ def run_impl(sc):
                 R.log = []
                 make_decoys(k_op)
                 R.log = []
+                w0 = getattr(box["model"], "state_writes", 0)
+                had_state = getattr(box["model"], "state", None) is not None
                 try:
                     if driver == "threads":
                         r = workers.call(len(obs) % 3, lambda op=op: step(op))
@@ -880,6 +1031,9 @@ def run_impl(sc):
                 fv = getattr(box["model"], "state", None)
                 fst = R.cls.states_map.get(fv) if fv is not None else None
                 field = None if fv is None else (sidx(fst) if fst is not None else 900)
+                if (op[0] == "construct" and had_state and field is not None
+                        and getattr(box["model"], "state_writes", 0) > w0):
+                    field = 903          # a state that was already stored has been written again
                 allowed = None
                 if sm is not None:
                     try:
@@ -933,6 +1087,8 @@ def cq_val(v):
         return f"(VBool {b(v)})"
     if isinstance(v, int):
         return f"(VInt ({v})%Z)"
+    if "x" in v:
+        return f"(VOpaque {700 + v['x']} true)"
     if "s" in v:
         return f"(VStr {v['s']})"
     if "l" in v:
